@@ -63,8 +63,8 @@ type verifRow struct {
 }
 
 const (
-	verifNPK     = 4
-	verifNIX     = 3
+	verifNPK      = 4
+	verifNIX      = 3
 	verifFaultMsg = "VERIFFAULT injected"
 )
 
@@ -92,8 +92,8 @@ func (s *verifSource) Seed(int64) {}
 
 // one miniredis with switchable per-command faults
 type verifRedis struct {
-	s    *miniredis.Miniredis
-	mu   sync.Mutex
+	s       *miniredis.Miniredis
+	mu      sync.Mutex
 	g, w, d bool
 }
 
@@ -136,10 +136,10 @@ func (r *verifRedis) setFaults(g, w, d bool) {
 }
 
 var (
-	verifOnce   sync.Once
+	verifOnce    sync.Once
 	verifServers []*verifRedis
-	verifStat   *Stat
-	verifCaseNo int
+	verifStat    *Stat
+	verifCaseNo  int
 )
 
 func verifSetup() {
@@ -177,7 +177,7 @@ type verifArmed struct {
 
 // verifCollect waits until the cleaner is idle and takes every timer out of the (frozen) wheel.
 func verifCollect() []verifArmed {
-	taskRunner.Schedule(func() {})     // barrier: the previous clean() body has returned
+	taskRunner.Schedule(func() {})           // barrier: the previous clean() body has returned
 	timingWheel.RemoveTimer("verif-barrier") // barrier: the wheel loop has handled every SetTimer before
 	n := verifWheelSize(timingWheel)
 	if n == 0 {
@@ -200,11 +200,11 @@ func verifCollect() []verifArmed {
 }
 
 type verifTask struct {
-	key   any
-	dt    delayTask
-	node  int
-	id    int
-	due   int
+	key  any
+	dt   delayTask
+	node int
+	id   int
+	due  int
 }
 
 type verifRun struct {
